@@ -164,7 +164,16 @@ impl Search {
 
         #[cfg(rce_verif)]
         crate::verif::sched("S.pre_best");
-        self.log(format!("bestmove {}", self.info.best_move.unwrap()).as_str());
+        // If not even the first iteration could be completed there is no searched move yet:
+        // answer with the first legal move of the root rather than with nothing.
+        let best_move = self
+            .info
+            .best_move
+            .or_else(|| self.original_board.get_legal_moves().first().copied());
+        match best_move {
+            Some(best_move) => self.log(format!("bestmove {best_move}").as_str()),
+            None => self.log("bestmove 0000"),
+        }
         #[cfg(rce_verif)]
         crate::verif::sched("S.post_best");
     }
